@@ -18,7 +18,9 @@ theorem guards_as_extracted :
     asyncioIdleFireClosesProtocolThenTransport = true ∧ trioIdleFireClosesProtocolThenTransport = true ∧
     asyncioReaderEndStopsIdle = true ∧ trioReaderEndStopsIdle = true ∧
     h11ClosedSetsFlag = true ∧ h11ClosedClosesStream = true ∧ h11ClosedReleasesReader = true ∧ pausedBreaksWhenClosed = true ∧
-    h2StreamClosedIgnoresUnknown = true := by decide
+    h2StreamClosedIgnoresUnknown = true ∧
+    priorIdleBeforeData = true ∧ wrapperUpdatedSites = ["handle:True"] ∧
+    trioCloseToleratesBusy = true ∧ trioCloseToleratesBroken = true ∧ trioCloseToleratesClosed = true ∧ trioCloseAlwaysCloses = true := by decide
 
 /-- **timer_armed_implies_not_busy**: whenever the idle timer is armed no request is in progress and no WebSocket is open,
     so the timer never closes a busy connection -/
@@ -58,12 +60,13 @@ theorem idle_close_time (cfg : Cfg) (ops : List Op) (s : St) (hr : run (init cfg
                     ready := s.ready ++ s.draining.map (·.1) } : St).release.closeTransport := by
         have f1 : s.draining.filter (fun _ => true) = s.draining := List.filter_eq_self.2 (fun _ _ => rfl)
         have f2 : s.draining.filter (fun _ => false) = [] := List.filter_eq_nil_iff.2 (fun _ _ => by simp)
-        simp [St.run, FUEL, exec, hl, h11ClosedClosesStream, h11ClosedReleasesReader, f1, f2]
+        simp [St.run, FUEL, exec, hl, h11ClosedClosesStream, h11ClosedReleasesReader, h2ClosedTellsEveryStream, f1, f2]
       rw [e]
-      refine ⟨?_, ?_, ?_, ?_⟩
-      · simp [St.closeTransport, St.release]; split <;> split <;> simp_all [St.emit]
-      · simp [St.closeTransport, St.release]; split <;> split <;> simp_all [St.emit]
-      · simp [St.closeTransport, St.release]; split <;> split <;> simp_all [St.emit]
+      have hrc : ∀ t : St, t.release.closedByServer = t.closedByServer ∧ t.release.now = t.now ∧ t.release.timer = t.timer := by
+        intro t; unfold St.release; split <;> simp
+      refine ⟨closeTransport_closed _, ?_, ?_, ?_⟩
+      · rw [closeTransport_closeAt _ (by rw [(hrc _).1]; exact hc), (hrc _).2.1]
+      · rw [closeTransport_timer, (hrc _).2.2]
       · intro ht
         have h1 := hI.dl d hd
         have h2 := hI.nl d hd
@@ -91,7 +94,7 @@ theorem partial_head_times_out (s s1 s2 : St) (h1 : step s .read = some s1) (h2 
   simp only [Bool.and_eq_true, beq_iff_eq, Bool.not_eq_true'] at hg
   simp only [step, St.readerCan, beq_self_eq_true, if_true] at h2
   simp at h2; subst h2
-  simp [St.run, FUEL, exec, hg.2]
+  simp [St.run, FUEL, exec, hg.2, priorIdleBeforeData]
 
 /-- the reader notices a server-side close: while it waits in `read()` on a transport the server has closed, the step
     that ends the reader is enabled (so such a state is never quiescent) -/
@@ -107,12 +110,12 @@ theorem released (s : St) (h : s.handlerReady = true) :
   simp only [St.handlerReady, Bool.and_eq_true, beq_iff_eq, List.isEmpty_iff, Option.isNone_iff_eq_none] at h
   obtain ⟨⟨⟨⟨⟨⟨⟨h1, h2⟩, h3⟩, h4⟩, _⟩, _⟩, _⟩, _⟩ := h
   refine ⟨({ (s.closeTransport).stopTimer with doneAt := some s.now } : St).emit [.done s.now], by simp only [step, h0, if_true], ?_, ?_, ?_, ?_, ?_, ?_⟩
-  · simp only [St.closeTransport, St.stopTimer, St.emit]; split <;> split <;> simp_all
-  · simp only [St.closeTransport, St.stopTimer, St.emit]; split <;> split <;> simp_all
+  · simp [St.emit, stopTimer_closed, closeTransport_closed]
+  · simp [St.emit, stopTimer_timer]
   · simp [St.emit]
-  · simp only [St.closeTransport, St.stopTimer, St.emit]; split <;> split <;> simp_all
-  · simp only [St.closeTransport, St.stopTimer, St.emit]; split <;> split <;> simp_all
-  · simp only [St.closeTransport, St.stopTimer, St.emit]; split <;> split <;> simp_all
+  · simp [St.emit, stopTimer_closers, closeTransport_closers, h4]
+  · simp [St.emit, stopTimer_rpc, closeTransport_rpc, h1]
+  · simp [St.emit, stopTimer_live, closeTransport_live, h2]
 
 /-- the reader's end stops the idle timer on both workers (F25 fixed): after `readerEnd` no timer is armed -/
 theorem reader_end_stops_timer (s : St) (w : Who) : (s.run w [.readerEnd]).timer = none ∧ (s.run w [.readerEnd]).rpc = .finished := by
@@ -130,6 +133,39 @@ theorem late_stream_closed_changes_nothing (s : St) (w : Who) (i : Nat) (h : s.l
   simp only [St.run, FUEL, exec, ha]
   rfl
 
+/-- **prior-knowledge HTTP/2** (cleartext; h11 reports the preface line as a request, which stops the timer): the wrapper's
+    `Updated(idle=True)` is processed while no stream exists - it restarts the timer with deadline now + T - and *before* the
+    bytes that followed the preface are handed over, so a request among them stops the timer again afterwards -/
+theorem prior_switch_idle_first (f : Nat) (s : St) (w : Who) (rest : List Instr) (hl : s.live = []) :
+    exec (f + 1) s w (.wrapperIdle :: rest) = exec f s.armTimer w rest ∧
+    s.armTimer.timer = some (s.now + s.cfg.T) ∧ s.armTimer.armedAt = s.now := by
+  simp [exec, priorIdleBeforeData, hl, St.armTimer, St.emit]
+
+/-- … and the switch itself arms nothing while a request is in progress: whatever the state, after the preface step the
+    timer is armed only if no registered stream is busy (an instance of `timer_armed_implies_not_busy`, spelled out for the
+    step because it is the one place where `Updated(idle=True)` is sent without looking at the streams) -/
+theorem prior_switch_not_armed_while_busy (cfg : Cfg) (ops : List Op) (s s' : St) (hr : run (init cfg) ops = some s)
+    (hs : step s .h2prior = some s') (ha : s'.timer.isSome = true) : s'.busy = false :=
+  (step_inv s s' .h2prior (reachable_inv cfg ops s hr) hs).armed ha
+
+/-- **a server-side close releases a writer the peer keeps waiting** (trio): `_close()` passes over the BusyResourceError
+    that `send_eof()` raises while another task is inside `send_all` and goes on to `aclose()`: the transport is closed at
+    this instant and the blocked writer is runnable again … -/
+theorem server_close_releases_blocked_writer (f : Nat) (s : St) (w u : Who) (rest : List Instr) (ht : s.cfg.trio = true)
+    (hb : s.wblocked = some u) (hc : s.closedByServer = false) :
+    (exec (f + 1) s w (.serverCloseNow :: rest)).closedByServer = true ∧
+    (exec (f + 1) s w (.serverCloseNow :: rest)).closeAt = some s.now ∧
+    (exec (f + 1) s w (.serverCloseNow :: rest)).wblocked = none ∧
+    u ∈ (exec (f + 1) s w (.serverCloseNow :: rest)).ready := by
+  simp [exec, ht, hb, hc, trioCloseToleratesBusy, trioCloseAlwaysCloses, Cfg.closeStops, Cfg.echoes, trioCloseStopsIdle, trioClosedEchoes,
+    St.closeTransport, St.releaseWriter, St.yieldTo, St.emit]
+
+/-- … and when it runs it finds its write failed and tells the protocol the connection is closed (which tells every stream:
+    `C03.closed_tells_every_stream`), so an application held in `send()` gets its answer -/
+theorem released_writer_reports_closed (f : Nat) (s : St) (u : Who) (rest : List Instr) (ht : s.cfg.trio = true) (hc : s.closedByServer = true) :
+    exec (f + 1) s u (.writeWait :: rest) = exec f (s.emit [.writeFail]) u (.handleClosed :: rest) := by
+  simp [exec, ht, hc]
+
 /-! ### witnesses -/
 
 /-- HTTP/2: the client resets the only stream at 1 s (idle from then), the streaming application ignores the disconnect and
@@ -138,6 +174,43 @@ example : (run (init { proto := .h2, T := 5000 }) [.read, .head {}, .h2eom 0, .n
       .tick 1000, .read, .h2rst 0, .needData, .tick 3000, .appSend 0 (.body false true), .appExit 0, .tick 2000, .timerFire]).map
     (fun s => (s.closeAt, s.timer)) = some (some 6000, none) := by decide
 
+
+/-- prior-knowledge HTTP/2, preface and first request in ONE read, a response that takes 3 T: the timer restarted by the
+    switch is stopped again by the request that follows in the same read; nothing is closed while the request is served, the
+    connection is closed T after the response ended -/
+example : (run (init { proto := .h2, T := 5000 }) [.tick 1000, .read, .h2prior, .head {}, .h2eom 0, .needData, .appRecv 0, .tick 15000,
+      .appSend 0 (.start false), .appSend 0 (.body false true), .resume (.app 0), .appExit 0, .tick 5000, .timerFire]).map
+    (fun s => (s.closeAt, s.timer, (s.inst 0).access)) = some (some 21000, none, 1) := by decide
+/-- … while the request is being served the timer is not armed and the clock may pass any old deadline -/
+example : (run (init { proto := .h2, T := 5000 }) [.tick 1000, .read, .h2prior, .head {}, .h2eom 0, .needData, .tick 15000]).map
+    (fun s => (s.timer, s.busy, s.closedByServer)) = some (none, true, false) := by decide
+/-- the preface on its own: the connection is idle again from the switch (F95, known: counted from the preface, not from the
+    accept) and is closed T later -/
+example : (run (init { proto := .h2, T := 5000 }) [.tick 1000, .read, .h2prior, .needData, .tick 5000, .timerFire]).map
+    (fun s => (s.closeAt, s.live)) = some (some 6000, []) := by decide
+
+/-- h2c upgrade: the upgraded request is in progress from the switch on - the timer h11 stopped stays stopped, 3 T may pass, and
+    the connection is closed T after the response has ended -/
+example : (run (init { proto := .h2, T := 5000 }) [.tick 1000, .read, .h2c, .head {}, .h2eom 0, .needData, .appRecv 0, .tick 15000,
+      .appSend 0 (.start false), .appSend 0 (.body false true), .resume (.app 0), .appExit 0, .tick 5000, .timerFire]).map
+    (fun s => (s.closeAt, s.timer, (s.inst 0).access)) = some (some 21000, none, 1) := by decide
+example : (run (init { proto := .h2, T := 5000 }) [.tick 1000, .read, .h2c, .head {}, .h2eom 0, .needData, .tick 15000]).map
+    (fun s => (s.timer, s.busy, s.closedByServer)) = some (none, true, false) := by decide
+
+/-- trio: the peer does not read, the application's first write is held up; a malformed chunk header makes the server close:
+    `_close()` passes over BusyResourceError, `aclose()` releases the writer, which reports the closure; the application's
+    later sends are no-ops, it returns and the handler finishes - all at the instant of the decision -/
+def blockedWriterClosed : List Op :=
+  [.pauseWrites, .read, .head {}, .needData, .appSend 0 (.start false), .resume (.app 0), .tick 300, .read, .protoError,
+   .resume .reader, .resume .reader, .resume .reader, .resume (.app 0), .appSend 0 (.body false true),
+   .resume (.app 0), .resume (.app 0), .resume (.app 0), .resume (.app 0), .appExit 0, .readerSeesClose, .handlerExit]
+example : (run (init { trio := true, T := 1000 }) blockedWriterClosed).map
+    (fun s => (s.closeAt, s.doneAt, (s.inst 0).discPuts, s.wblocked.isNone && s.wlockq.isEmpty)) = some (some 300, some 300, 1, true) := by decide
+/-- F96 (known), asyncio: `writer.close()` keeps what is buffered until the peer reads it; the task waiting in `drain()` is not
+    released by the server's close - the application stays inside `send()`, the handler never becomes ready -/
+example : (run (init { T := 1000 }) [.pauseWrites, .read, .head {}, .needData, .appSend 0 (.start false), .tick 300, .read, .protoError,
+      .readerSeesClose, .tick 100000]).map
+    (fun s => (s.closeAt, s.wblocked == some (.app 0), s.handlerReady, (s.inst 0).discPuts)) = some (some 300, true, false, 1) := by decide
 
 /-- idle connection: nothing arrives, closed at exactly T; the handler is done at the same instant -/
 example : (run (init { T := 5000 }) [.tick 5000, .timerFire, .readerSeesClose, .handlerExit]).map (fun s => (s.closeAt, s.doneAt)) =
